@@ -8,6 +8,25 @@ use std::collections::HashMap;
 use crate::sql::{BinOp, E};
 use crate::value::V;
 
+/// development aid (VCHECK_UNSPEC_SURVEY=1): how often each "unspecified" site of the reference evaluator is reached
+pub static UNSPEC_SURVEY: std::sync::Mutex<std::collections::BTreeMap<u32, u64>> = std::sync::Mutex::new(std::collections::BTreeMap::new());
+
+fn survey_enabled() -> bool {
+    static ON: std::sync::OnceLock<bool> = std::sync::OnceLock::new();
+    *ON.get_or_init(|| std::env::var("VCHECK_UNSPEC_SURVEY").is_ok())
+}
+
+pub fn dump_unspec_survey() {
+    if survey_enabled() {
+        let m = UNSPEC_SURVEY.lock().unwrap();
+        let mut v: Vec<(&u32, &u64)> = m.iter().collect();
+        v.sort_by(|a, b| b.1.cmp(a.1));
+        for (line, n) in v.iter().take(40) {
+            eprintln!("unspecified site eval.rs:{} reached {} times", line, n);
+        }
+    }
+}
+
 #[derive(Clone, Debug, PartialEq)]
 pub enum K {
     Val(V),
@@ -33,7 +52,12 @@ impl Ev {
     pub fn err() -> Ev {
         Ev { k: K::Err, or_err: false, approx: false, unordered: false }
     }
+    #[track_caller]
     pub fn unspec() -> Ev {
+        if survey_enabled() {
+            let line = std::panic::Location::caller().line();
+            *UNSPEC_SURVEY.lock().unwrap().entry(line).or_insert(0) += 1;
+        }
         Ev { k: K::Unspec, or_err: false, approx: false, unordered: false }
     }
     fn with_or_err(mut self, flag: bool) -> Ev {
